@@ -45,6 +45,27 @@ type req struct {
 	TimeoutM int             `json:"timeoutMs"`
 	NumKind  string          `json:"numKind"` // store integral numbers of the document as this Go kind
 	Tables   string          `json:"tables"`  // "maps": top-level arrays of objects become []map[string]any (typed slices)
+	ReExec   bool            `json:"reExec"`  // query op: call Exec a second time on the same *Query ("v2" / "r2")
+	TopName  string          `json:"topName"` // reader op: (re-)register this top-level function first ...
+	TopImpl  string          `json:"topImpl"` // ... as count | wrap | id | first
+}
+
+// the top-level functions a reader request can (re-)register under a name of its choosing
+var topImpls = map[string]func(any) (any, error){
+	"count": func(v any) (any, error) {
+		if a, ok := v.([]any); ok {
+			return float64(len(a)), nil
+		}
+		return float64(1), nil
+	},
+	"wrap": func(v any) (any, error) { return []any{v}, nil },
+	"id":   func(v any) (any, error) { return v, nil },
+	"first": func(v any) (any, error) {
+		if a, ok := v.([]any); ok && len(a) > 0 {
+			return a[0], nil
+		}
+		return nil, nil
+	},
 }
 
 // ---------- instrumentation state for the registered test functions ----------
@@ -587,6 +608,23 @@ func opQuery(r *req) (out resp) {
 		if len(nonPlain) > 0 {
 			out["nonPlain"] = nonPlain
 		}
+		if r.ReExec {
+			rs2, err := q.Exec()
+			if err != nil {
+				out["r2"] = "error"
+				out["msg2"] = err.Error()
+				return
+			}
+			out["r2"] = "ok"
+			if rs2 == nil {
+				rs2 = []any{}
+			}
+			s2, nonPlain2 := encode(rs2)
+			out["v2"] = json.RawMessage(s2)
+			if len(nonPlain2) > 0 {
+				out["nonPlain2"] = nonPlain2
+			}
+		}
 	}()
 	out["calls"] = callCount.Load()
 	out["started"] = started.Load()
@@ -688,6 +726,9 @@ func opReader(r *req) (out resp) {
 		return
 	}
 	before, _ := encode(doc)
+	if f, ok := topImpls[r.TopImpl]; ok && r.TopName != "" {
+		genql.RegisterTopLevelFunction(r.TopName, f)
+	}
 	func() {
 		defer func() {
 			if p := recover(); p != nil {
